@@ -1007,14 +1007,16 @@ theorem tx_deleverage_closed {w w' : WState} {tx : List TOp} (h : w.runTx tx = s
 
 /-! ### who acts inside a committed transaction: a third party only inside a bracket -/
 
-/-- every position of a committed transaction from position `i` on was reached with the receivership invariant -/
-theorem runFrom_at_r (tx : List TOp) : ∀ (rest : List TOp) (i : Nat) (w w' : WState), tx.drop i = rest →
-    WState.runFrom tx i rest w = some w' → RecvInv tx i w →
-    ∀ (j : Nat) (t : TOp), i ≤ j → tx[j]? = some t → ∃ (wj wj' : WState), RecvInv tx j wj ∧ wj.stepIn tx j t = some wj' := by
+/-- every position of a committed transaction from position `i` on was reached — it is the state `before` gives — with the
+    receivership invariant -/
+theorem runFrom_at_r (tx : List TOp) (w0 : WState) : ∀ (rest : List TOp) (i : Nat) (w w' : WState), tx.drop i = rest →
+    w0.before tx i = some w → WState.runFrom tx i rest w = some w' → RecvInv tx i w →
+    ∀ (j : Nat) (t : TOp), i ≤ j → tx[j]? = some t →
+      ∃ (wj wj' : WState), w0.before tx j = some wj ∧ RecvInv tx j wj ∧ wj.stepIn tx j t = some wj' := by
   intro rest
   induction rest with
   | nil =>
-    intro i w w' hd h hp j t hij hj
+    intro i w w' hd _ h hp j t hij hj
     have hlen : tx.length ≤ i := by
       rcases Nat.lt_or_ge i tx.length with h1 | h1
       · have : (tx.drop i).length = tx.length - i := List.length_drop
@@ -1026,19 +1028,31 @@ theorem runFrom_at_r (tx : List TOp) : ∀ (rest : List TOp) (i : Nat) (w w' : W
       · rw [List.getElem?_eq_none h1] at hj; cases hj
     omega
   | cons op rest ih =>
-    intro i w w' hd h hp j t hij hj
+    intro i w w' hd hbef h hp j t hij hj
     obtain ⟨hti, hd'⟩ := drop_cons_facts hd
     simp only [WState.runFrom] at h
     split at h
     · rename_i w1 hs1
       rcases Nat.lt_or_ge i j with hlt | hge
-      · exact ih (i + 1) w1 w' hd' h (stepIn_recv hti hs1 hp) j t (by omega) hj
+      · have hlt' : i < tx.length := by
+          rcases Nat.lt_or_ge i tx.length with h2 | h2
+          · exact h2
+          · rw [List.getElem?_eq_none h2] at hti; cases hti
+        have htake : tx.take (i + 1) = tx.take i ++ [op] := by
+          rw [List.take_succ, hti]; rfl
+        have hbef1 : w0.before tx (i + 1) = some w1 := by
+          unfold WState.before at hbef ⊢
+          rw [htake]
+          apply runFrom_snoc tx (tx.take i) 0 w0 w w1 op hbef
+          have : (tx.take i).length = i := by simp [List.length_take]; omega
+          rw [this, Nat.zero_add]; exact hs1
+        exact ih (i + 1) w1 w' hd' hbef1 h (stepIn_recv hti hs1 hp) j t (by omega) hj
       · have : j = i := by omega
         subst this
         rw [hti] at hj
         injection hj with hj
         subst hj
-        exact ⟨w, w1, hp, hs1⟩
+        exact ⟨w, w1, hbef, hp, hs1⟩
     · cases h
 
 /-- an `AnyBracket` transaction starts with a start: an instruction at a position that is no start sits strictly inside -/
@@ -1059,19 +1073,19 @@ theorem anyBracket_inside {tx : List TOp} {i k : Nat} {t : TOp} (ht : tx[i]? = s
 theorem tx_withdraw_in_bracket {w w' : WState} {tx : List TOp} (h : w.runTx tx = some w')
     (h0 : ∀ (k : Nat) (a : AcctV), w.accts[k]? = some a → inRecv a = false)
     {i ai bi signer : Nat} {amount vault : Int} {all : Bool} (hi : tx[i]? = some (.ix (.withdraw ai bi signer amount all vault))) :
-    ∃ (wi : WState) (a : AcctV) (b : WBank) (o : Out), wi.accts[ai]? = some a ∧ wi.banks[bi]? = some b ∧
+    ∃ (wi : WState) (a : AcctV) (b : WBank) (o : Out), w.before tx i = some wi ∧ wi.accts[ai]? = some a ∧ wi.banks[bi]? = some b ∧
       withdraw (wi.ctx a b signer b.v.liquidityVault vault) amount all = .ok o ∧
       (inRecv a = true → AnyBracket tx ai ∧ 0 < i ∧ i + 1 < tx.length) := by
   have hp0 : RecvInv tx 0 w := by
     intro k a hk hf
     rw [h0 k a hk] at hf; cases hf
-  obtain ⟨wi, wi', hpi, hst⟩ := runFrom_at_r tx tx 0 w w' rfl h hp0 i _ (Nat.zero_le _) hi
+  obtain ⟨wi, wi', hbef, hpi, hst⟩ := runFrom_at_r tx w tx 0 w w' rfl (before_zero w tx) h hp0 i _ (Nat.zero_le _) hi
   simp only [WState.stepIn, WState.step?] at hst
   split at hst
   · rename_i a b ha hb
     split at hst
     · rename_i o ho
-      refine ⟨wi, a, b, o, ha, hb, ho, ?_⟩
+      refine ⟨wi, a, b, o, hbef, ha, hb, ho, ?_⟩
       intro hr
       obtain ⟨_, hbr⟩ := hpi ai a ha hr
       exact ⟨hbr, anyBracket_inside hi hbr rfl rfl, anyBracket_next hi rfl rfl hbr⟩
@@ -1082,19 +1096,19 @@ theorem tx_withdraw_in_bracket {w w' : WState} {tx : List TOp} (h : w.runTx tx =
 theorem tx_repay_in_bracket {w w' : WState} {tx : List TOp} (h : w.runTx tx = some w')
     (h0 : ∀ (k : Nat) (a : AcctV), w.accts[k]? = some a → inRecv a = false)
     {i ai bi signer : Nat} {amount : Int} {all : Bool} (hi : tx[i]? = some (.ix (.repay ai bi signer amount all))) :
-    ∃ (wi : WState) (a : AcctV) (b : WBank) (o : Out), wi.accts[ai]? = some a ∧ wi.banks[bi]? = some b ∧
+    ∃ (wi : WState) (a : AcctV) (b : WBank) (o : Out), w.before tx i = some wi ∧ wi.accts[ai]? = some a ∧ wi.banks[bi]? = some b ∧
       repay (wi.ctx a b signer b.v.liquidityVault 0) amount all = .ok o ∧
       (inRecv a = true → AnyBracket tx ai ∧ 0 < i ∧ i + 1 < tx.length) := by
   have hp0 : RecvInv tx 0 w := by
     intro k a hk hf
     rw [h0 k a hk] at hf; cases hf
-  obtain ⟨wi, wi', hpi, hst⟩ := runFrom_at_r tx tx 0 w w' rfl h hp0 i _ (Nat.zero_le _) hi
+  obtain ⟨wi, wi', hbef, hpi, hst⟩ := runFrom_at_r tx w tx 0 w w' rfl (before_zero w tx) h hp0 i _ (Nat.zero_le _) hi
   simp only [WState.stepIn, WState.step?] at hst
   split at hst
   · rename_i a b ha hb
     split at hst
     · rename_i o ho
-      refine ⟨wi, a, b, o, ha, hb, ho, ?_⟩
+      refine ⟨wi, a, b, o, hbef, ha, hb, ho, ?_⟩
       intro hr
       obtain ⟨_, hbr⟩ := hpi ai a ha hr
       exact ⟨hbr, anyBracket_inside hi hbr rfl rfl, anyBracket_next hi rfl rfl hbr⟩
